@@ -84,14 +84,12 @@ pub open spec fn scope_read_step(s0: Scope, bytes: Seq<u8>, pos0: int, limit: in
                 match dec_nsnnwn(bytes, pos0, limit) {
                     None => r is Err,
                     Some((c, p1)) => {
-                        let k: int = if c + 1 > usize::MAX { usize::MAX as int } else { c + 1 };          // transmitted count
-                        let known = if k < number_of_ext_fields { k } else { number_of_ext_fields as int };   // consulted bits
-                        pos1 == (if p1 + k < limit { p1 + k } else { limit }) &&
-                        if known > 0 {
-                            s1 == Scope::AllBitField(Range { start: (p1 + 1) as usize, end: (p1 + known) as usize }) && lookup_bit(bytes, limit, p1, r)
-                        } else {
-                            s1 == Scope::AllBitField(Range { start: p1 as usize, end: p1 as usize }) && is_absent(r)
-                        }
+                        let k: int = if c + 1 > usize::MAX { usize::MAX as int } else { c + 1 };          // transmitted count (>= 1)
+                        let end: int = if p1 + k > usize::MAX { usize::MAX as int } else { p1 + k };      // end of the transmitted bitmap
+                        // the bitmap range keeps ALL transmitted bits: those of additions the reader does not know are consumed
+                        // by skip_unknown_extension_additions at the end of read_sequence
+                        pos1 == (if end < limit { end } else { limit }) &&
+                        s1 == Scope::AllBitField(Range { start: (p1 + 1) as usize, end: end as usize }) && lookup_bit(bytes, limit, p1, r)
                     }
                 }
             },
